@@ -4,7 +4,9 @@ Every entry is a thunk whose result (a canonical string, errors mapped to their 
 the same whether it is the first call of a fresh interpreter or comes after any sequence of other entries, in any thread.
 Run as a script: `python -m harness.c15_catalogue [--threads N] '<json list of names>'` executes the names in order in THIS
 interpreter and prints the JSON list of results (with --threads the list is dealt round-robin to N threads running with a
-minimal switch interval; results are reported in list order)."""
+minimal switch interval; results are reported in list order).
+`python -m harness.c15_catalogue --reuse '<json spec>'` replays ONE history on ONE long-lived object (see `reuse_run`) and prints, per call,
+the answer of the reused object next to the answer of a fresh object of the same construction."""
 import hashlib, json, sys, threading
 
 
@@ -59,6 +61,46 @@ def _shared_words(a, b):
         k += 1
 
 
+# ---- reused objects -------------------------------------------------------------------------------------------------------------
+# A decoder / validator / encoder object is a value: whatever it was asked before (other languages, failed calls, the same question),
+# the next answer is the one a fresh object built the same way gives. A history is a JSON-able spec
+#   {"cls": "<class exported by bip_utils>", "args": [<constructor arguments>], "calls": [[<method>, <argument>], ...]}
+# arguments: null, "E:<Enum>.<MEMBER>" (an enumeration exported by bip_utils), "s:<text>", "b:<hex bytes>", "m:<text>" (a Mnemonic object
+# made from the text for this call only).
+
+def _reuse_arg(a):
+    import bip_utils
+    if a is None:
+        return None
+    kind, _, val = a.partition(":")
+    if kind == "E":
+        en, _, mem = val.partition(".")
+        return getattr(bip_utils, en)[mem]
+    if kind == "s":
+        return val
+    if kind == "b":
+        return bytes.fromhex(val)
+    if kind == "m":
+        from bip_utils.utils.mnemonic import Mnemonic
+        return Mnemonic.FromString(val)
+    raise ValueError(a)
+
+
+def reuse_make(spec):
+    import bip_utils
+    return getattr(bip_utils, spec["cls"])(*[_reuse_arg(a) for a in spec["args"]])
+
+
+def reuse_call(obj, method, arg):
+    return _run(lambda: getattr(obj, method)(_reuse_arg(arg)))
+
+
+def reuse_run(spec):
+    """-> [[answer of the reused object, answer of a fresh object], ...] one pair per call of the history"""
+    shared = reuse_make(spec)
+    return [[reuse_call(shared, m, a), reuse_call(reuse_make(spec), m, a)] for m, a in spec["calls"]]
+
+
 _DYNAMIC = {}      # factories of parametrised entries, filled by build()
 
 
@@ -107,6 +149,27 @@ def build():
     C["electrumv1.roundtrip"] = lambda: ElectrumV1MnemonicDecoder().Decode(ElectrumV1MnemonicEncoder().Encode(ent).ToStr())
     C["algorand.roundtrip"] = lambda: AlgorandMnemonicDecoder().Decode(AlgorandMnemonicEncoder().Encode(bytes(range(32))).ToStr())
     C["electrumv2.dec.bad"] = lambda: ElectrumV2MnemonicDecoder().Decode("abandon " * 12)
+    # --- ONE long-lived auto-detecting decoder / validator per class for the life of the interpreter, asked about mnemonics of different
+    #     languages and about a failing one: each answer is the one of a fresh object (first call of a fresh interpreter), after any history
+    import bip_utils as _BU
+    _shared = {}
+
+    def shared_obj(cls_name):
+        if cls_name not in _shared:
+            _shared[cls_name] = getattr(_BU, cls_name)()
+        return _shared[cls_name]
+
+    def bad_last_word(sentence):
+        ws = sentence.split(" ")
+        return " ".join(ws[:-1] + [ws[0] if ws[0] != ws[-1] else ws[1]])
+    for lang in (Bip39Languages.ENGLISH, Bip39Languages.ITALIAN, Bip39Languages.KOREAN):
+        C["shared.bip39.dec." + lang.name] = lambda lang=lang: shared_obj("Bip39MnemonicDecoder").Decode(Bip39MnemonicEncoder(lang).Encode(bytes(range(5, 21))).ToStr())
+    for lang in (Bip39Languages.FRENCH, Bip39Languages.CZECH):
+        C["shared.bip39.valid." + lang.name] = lambda lang=lang: shared_obj("Bip39MnemonicValidator").IsValid(Bip39MnemonicEncoder(lang).Encode(bytes(range(7, 31))).ToStr())
+    C["shared.bip39.dec.failing.SPANISH"] = lambda: shared_obj("Bip39MnemonicDecoder").Decode(bad_last_word(Bip39MnemonicEncoder(Bip39Languages.SPANISH).Encode(bytes(range(9, 25))).ToStr()))
+    for lang in (MoneroLanguages.ENGLISH, MoneroLanguages.SPANISH):
+        C["shared.monero.dec." + lang.name] = lambda lang=lang: shared_obj("MoneroMnemonicDecoder").Decode(MoneroMnemonicEncoder(lang).EncodeWithChecksum(bytes(range(2, 34))).ToStr())
+    C["shared.monero.valid.GERMAN"] = lambda: shared_obj("MoneroMnemonicValidator").IsValid(MoneroMnemonicEncoder(MoneroLanguages.GERMAN).EncodeWithChecksum(bytes(range(4, 20))).ToStr())
     # --- hierarchies, one entry per coin family incl. the toggled ones; conf dumps; wrappers that copy a shared configuration
     fams = {"Bip44": (Bip44, Bip44Coins, Bip44ConfGetter), "Bip49": (Bip49, Bip49Coins, Bip49ConfGetter), "Bip84": (Bip84, Bip84Coins, Bip84ConfGetter),
             "Bip86": (Bip86, Bip86Coins, Bip86ConfGetter), "Cip1852": (Cip1852, Cip1852Coins, Cip1852ConfGetter)}
@@ -249,6 +312,13 @@ def main():
     nth = 0
     if args[0] == "--threads":
         nth = int(args[1]); args = args[2:]
+    if args[0] == "--reuse":
+        spec = json.loads(args[1])
+        res = reuse_run(spec)
+        for (m, a), (got, want) in zip(spec["calls"], res):
+            print("%s.%s(%s)\n    reused object: %s\n    fresh object : %s%s" % (spec["cls"], m, a, got, want, "" if got == want else "      <-- DIFFERS"))
+        print(json.dumps(res))
+        sys.exit(1 if any(g != w for g, w in res) else 0)
     if args[0] == "--list":
         print(json.dumps(sorted(build())))
         return
